@@ -168,6 +168,30 @@ def task(t):
                     am = [driver.fp_model_bits(model, x.term), driver.fp_model_bits(model, y.term)]
                     R.candidates.append(E.cand("C02", "symmetry", be, w, "cmp_all", [q], [ua, ub], am, pair, role="%s:symmetry" % be))
                     decided = True
+            if be == "dec" and failed_sym and fp_budget > 0:
+                # witness search for the decimal back-end under T_red (comparisons exact, mul/div within 1e-18)
+                rd = T.TRed()
+                run3 = driver.Run(w, rd, prune=False)
+                x, y = rd.var("a"), rd.var("b")
+
+                def cmp_rd(p, up, r, ur):
+                    s = run3.state()
+                    qp, qr = run3.qty(s, q, p, up), run3.qty(s, q, r, ur)
+                    o1 = run3.call(s, "<%s as PartialOrd>::partial_cmp" % q, [run3.ref(s, qp), run3.ref(s, qr)])
+                    s = run3.state()
+                    qp, qr = run3.qty(s, q, p, up), run3.qty(s, q, r, ur)
+                    o2 = run3.call(s, "<%s as PartialEq>::eq" % q, [run3.ref(s, qp), run3.ref(s, qr)])
+                    return E.ord_conds(o1), E.bool_of(o2)
+
+                d_ab, de_ab = cmp_rd(x, ua, y, ub)
+                d_ba, de_ba = cmp_rd(y, ub, x, ua)
+                diffs = z3.Or(E.z(de_ab) != E.z(de_ba), E.z(d_ab["Less"]) != E.z(d_ba["Greater"]),
+                              E.z(d_ab["Greater"]) != E.z(d_ba["Less"]), E.z(d_ab["Equal"]) != E.z(de_ab))
+                boxd = [E.box1(rd, x), E.box1(rd, y)]
+                res, model = sv.check(boxd + rd.cons + [diffs], want_model=True)
+                if res == "sat":
+                    R.candidates.append(E.cand("C02", "symmetry", be, w, "cmp_all", [q], [ua, ub], E.model_amounts(model, [x, y], be), pair, role="%s:symmetry" % be))
+                    decided = True
             for name in failed_sym:
                 R.oblig(pair + " " + name, False, True, {"obligation": pair + " " + name, "theory": "T_uf(total)", "verdict": "sat (candidate)"})
             if failed_sym and not decided:
@@ -249,9 +273,14 @@ def probe_pairs(c, d):
                 x, y = F(av) + da * tol.EPS, F(bv) + db * tol.EPS
                 if abs(x) < 10 ** 17 and abs(y) < 10 ** 17:
                     out.append([E.to_amount(be, x), E.to_amount(be, y)])
+    zero = rgen.f64_bits(0.0) if be == "f64" else "0"
+    special = [[zero, zero]]
+    if be == "f64":
+        special += [[rgen.f64_bits(-0.0), zero], [rgen.f64_bits(float("inf")), rgen.f64_bits(float("inf"))], [zero, rgen.f64_bits(5e-324)]]
+    out = special + out
     for p in E.probe_amounts_2(c):
         out.append(p)
-    return out[:60]
+    return out[:64]
 
 
 def run(report, tier):
